@@ -169,6 +169,11 @@ def directed_tail(st0, ops, seed, k=3):
     rnd = random.Random(seed ^ 0x7A11)
     pairs = sorted(used, key=lambda p: (not used[p], rnd.random()))[:k]
     tail = []
+    if any(om.get("broken") or om.get("semblock") for om in st["mods"].values()):
+        # steps with a blocking error are not compared: the directed part runs on a project without blockers
+        tail.append({"op": "clear_blockers", "mod": sorted(st["mods"])[0], "seed": 0})
+        for om in st["mods"].values():
+            om["broken"] = om["semblock"] = False
     # the whole annotation-position matrix for one class of another module, in a module that reaches it by
     # `import dep` (a `from dep import R` line would be a second dependency on R and hide a missing one)
     cands = sorted((o, d, n) for o, om in st["mods"].items() for d, style in om["imports"].items() if style in ("import", "func") and d in st["mods"] and not om.get("broken") and not om.get("semblock")
@@ -177,8 +182,31 @@ def directed_tail(st0, ops, seed, k=3):
         o, d, n = rnd.choice(cands)
         tail.append({"op": "add_sig_uses", "mod": o, "dep": d, "name": n, "seed": rnd.randrange(2**30)})
         pairs = [(d, n)] + [p for p in pairs if p != (d, n)][: k - 1]
-    for d, n in pairs:
+    for d, n in pairs[:2]:
         tail += [{"op": "toggle_hidden", "mod": d, "name": n, "seed": 1}, {"op": "toggle_hidden", "mod": d, "name": n, "seed": 2}]
+    # a local class passed where an imported class is expected gains that class as a base, and loses it again
+    others = sorted((o, u["id"]) for o, om in st["mods"].items() for u in om["uses"] if u.get("other") in om["exports"] and u["dep"] in om["imports"] and u["dep"] in st["mods"] and u["name"] in st["mods"][u["dep"]]["exports"])
+    rnd.shuffle(others)
+    if not others:
+        # make the situation: some importer (not a TYPE_CHECKING-only import) and its dependency both get a plain class
+        edges = sorted((o, d) for o, om in st["mods"].items() for d, style in om["imports"].items() if style != "tc" and d in st["mods"])
+        if edges:
+            o, d = rnd.choice(edges)
+            pre = [{"op": "ensure_cls", "mod": d, "seed": rnd.randrange(2**30)}, {"op": "ensure_cls", "mod": o, "seed": rnd.randrange(2**30)}]
+            for op in pre:
+                project.apply_edit(st, op)
+            n = sorted(k_ for k_, e in st["mods"][d]["exports"].items() if e["kind"] == "cls" and not e.get("hidden"))
+            loc = sorted(k_ for k_, e in st["mods"][o]["exports"].items() if e["kind"] == "cls" and not e.get("hidden") and not e.get("base"))
+            if n and loc:
+                tail += pre + [{"op": "add_other_use", "mod": o, "dep": d, "name": n[0], "other": loc[0], "seed": rnd.randrange(2**30)}]
+                others = [(o, None)]
+    for o, uid in others[:2]:
+        tail += [{"op": "make_subclass", "mod": o, "use": uid, "seed": 1}, {"op": "make_subclass", "mod": o, "use": uid, "seed": 2}]
+    # a name that a star importer uses leaves __all__ and comes back (its definition is untouched)
+    starred = sorted({(u["dep"], u["name"]) for o, om in st["mods"].items() for u in om["uses"] if om["imports"].get(u["dep"]) == "star" and u["dep"] in st["mods"] and u["name"] in st["mods"][u["dep"]]["exports"]})
+    rnd.shuffle(starred)
+    for d, n in starred[:2]:
+        tail += [{"op": "toggle_all_member", "mod": d, "name": n, "seed": 1}, {"op": "toggle_all_member", "mod": d, "name": n, "seed": 2}]
     return tail
 
 
@@ -260,22 +288,23 @@ def run(run: Run) -> None:
     profile = os.environ.get("VERIF_C03_PROFILE", "structure")  # the env override is a development aid (exploring fenced profiles)
     run.rule = (
         "G2 edit histories in the '%s' profile on import graphs that start acyclic (definition-level edits: change/add/remove functions, classes incl. base-class changes and 'make the local class a subclass of the imported one', constants, aliases, generics, protocols, "
-        "NamedTuple/TypedDict/dataclass/enum, overloads, decorators; body-only errors; remove/restyle imports incl. function-level and TYPE_CHECKING imports; syntax errors and semantic-analysis blockers switched on and removed again; type: ignore on/off; a quarter of the uses of class-like definitions mention the class in an annotation only - 20 positions: TypeIs/TypeGuard/Callable/type[]/varargs/tuple/generic argument/TypeVar bound/NamedTuple, TypedDict, dataclass fields/Protocol member/overload item/property/alias/base-class argument/nested def/ClassVar/cast; "
-        "every history ends with a directed tail: all 20 annotation-only positions are added for one class of another module, then up to three definitions used by other modules (that class first) disappear and come back unchanged) "
+        "NamedTuple/TypedDict/dataclass/enum, overloads, decorators; body-only errors; remove/restyle imports incl. function-level and TYPE_CHECKING imports; syntax errors and semantic-analysis blockers switched on and removed again; type: ignore on/off; in every second history also star imports and edits that change only `__all__`; a quarter of the uses of class-like definitions mention the class in an annotation only - 20 positions: TypeIs/TypeGuard/Callable/type[]/varargs/tuple/generic argument/TypeVar bound/NamedTuple, TypedDict, dataclass fields/Protocol member/overload item/property/alias/base-class argument/nested def/ClassVar/cast; "
+        "every history ends with a directed tail: all 20 annotation-only positions are added for one class of another module, then up to two definitions used by other modules (that class first) disappear and come back unchanged, up to two local classes passed where an imported class is expected gain that class as a base and lose it again, up to two names used through a star import leave `__all__` and come back) "
         "driven through an in-process dmypy Server (cmd_check after every step) and compared with a fresh `python -m mypy` process on the same files: status, per-file ordered diagnostics, multiset. "
         "Non-trivial: a step answered by a fine-grained update that re-processed targets in at least two modules (the edit propagated)." % profile
     )
-    run.assumptions = ["the daemon is driven in-process through Server.cmd_check (the socket/IPC path is C16's subject)", "after a wrong answer or crash the server is restarted so that findings are independent", "richer profiles (star imports, module add/delete/rename, stubs, packages) are fenced off until their findings saturate - see DESIGN.md"]
+    run.assumptions = ["the daemon is driven in-process through Server.cmd_check (the socket/IPC path is C16's subject)", "after a wrong answer or crash the server is restarted so that findings are independent", "richer profiles (module add/delete/rename, stubs, module<->package, new import edges) are fenced off until their findings saturate - see DESIGN.md"]
     seeds = []
 
     @hypothesis.seed(run.seed)
-    @settings(max_examples=12 if q else 300, database=None, deadline=None, suppress_health_check=list(HealthCheck), phases=[hypothesis.Phase.generate])
+    @settings(max_examples=14 if q else 300, database=None, deadline=None, suppress_health_check=list(HealthCheck), phases=[hypothesis.Phase.generate])
     @given(st.integers(0, 2**40), st.integers(4, 7))
     def draw(s, n):
         seeds.append((s, n))
 
     draw()
-    work = [(s, n, 8 if q else 25, profile) for s, n in dict.fromkeys(seeds)]
+    # every second history also has star imports and __all__ edits
+    work = [(s, n, 6 if q else 25, profile if (i % 2 == 0 or profile != "structure") else "structure-star") for i, (s, n) in enumerate(dict.fromkeys(seeds))]
     k = 0
     for res in pmap(eval_history, work, recycle=2):
         judge(run, res)
